@@ -8,7 +8,7 @@ The RE-ENCODING direction of C01, composed: decoder output handed back to the en
   `Fit.E2E.retained` — the messages as they are minus the invalid-valued fields (from `C10_validate_filter`).
 * `retained_good`: what is retained of GOOD decoded messages (`decodeChain_good`) meets the typing assumptions of the
   end-to-end theorems (`inDomain`), lies outside the three finding classes of the forward direction (`noKF`) and — outside
-  the classes `kfUndersized` / `kfPieces` — is in wire-normal form (`seqNormal`), given what acceptance by the validator
+  the class `kfPieces` — is in wire-normal form (`seqNormal`), given what acceptance by the validator
   guarantees (`KeptOK`: alignment).
 -/
 set_option linter.unusedSimpArgs false
@@ -233,16 +233,16 @@ theorem fromGood_classes (fac : Factory) (m : DecApi.Msg) (km : Message) (hg : M
 theorem fromGood_normal (fac : Factory) (arch : Nat) (m : DecApi.Msg) (km : Message) (hg : MsgGood fac m) (hfg : FromGood fac m km)
     (fds : List FieldDesc)
     (hdv : ∀ d ∈ km.devFields, ∃ fd, lookupFd fds d = some fd ∧ align d.value fd.btId = true ∧ size d.value ≤ 255)
-    (hu : m.fields.any kfUndersizedF = false) (hp : (m.fields.any kfPiecesF || m.devs.any kfPiecesD) = false) :
+    (hp : (m.fields.any kfPiecesF || m.devs.any kfPiecesD) = false) :
     msgVariants normalValue false fac arch fds km = msgVariants idValue false fac arch fds km := by
-  simp only [Bool.or_eq_false_iff, List.any_eq_false] at hu hp
+  simp only [Bool.or_eq_false_iff, List.any_eq_false] at hp
   have hf : ∀ f ∈ km.fields, fieldBack normalValue false fac km.num f = fieldBack idValue false fac km.num f := by
     intro f hfm
     obtain ⟨d, hd, rfl⟩ := hfg.fields f hfm
     have hgd : FieldGood fac km.num d := by rw [hfg.num]; exact hg.2.1 d hd
     rw [fieldBack_backF, fieldBack_backF]
     simp only [idValue]
-    rw [hgd.nv (by simpa using hu d hd) (by simpa using hp.1 d hd)]
+    rw [hgd.nv (by simpa using hp.1 d hd)]
   have hd : ∀ x ∈ km.devFields, devBack normalValue false fds x = devBack idValue false fds x := by
     intro x hx
     obtain ⟨d, hdm, rfl⟩ := hfg.devs x hx
@@ -333,7 +333,7 @@ theorem retained_head_fromGood (fac : Factory) (omitInv : Bool) (m : DecApi.Msg)
     exact ⟨d, hd, rfl⟩
 
 /-- **what validation retains of good decoded messages**: typed as the end-to-end theorems assume, outside the three finding
-classes of the forward direction, and — when no decoded field is in the class `kfUndersized` / `kfPieces` — in
+classes of the forward direction, and — when no decoded field is in the class `kfPieces` — in
 wire-normal form; `KeptOK` is what acceptance by the validator guarantees (alignment of every value with the base type it is
 written under) -/
 theorem retained_good (fac : Factory) (hfac : facOKB fac = true) (hkeys : keysKnown fac = true) (arch : Nat) (omitInv : Bool) :
@@ -342,7 +342,7 @@ theorem retained_good (fac : Factory) (hfac : facOKB fac = true) (hkeys : keysKn
     seqClass (fun _ _ _ v => kfZeroV v) fac vst (retained omitInv vst ms) = false ∧
     seqClass kfArrV fac vst (retained omitInv vst ms) = false ∧
     seqClass (fun _ _ _ v => kfFFFDV v) fac vst (retained omitInv vst ms) = false ∧
-    (kfUndersized ms = false → kfPieces ms = false → seqNormal fac arch vst (retained omitInv vst ms) = true) := by
+    (kfPieces ms = false → seqNormal fac arch vst (retained omitInv vst ms) = true) := by
   intro ms
   induction ms with
   | nil => intro vst _ _; simp [retained, seqClass, seqNormal]
@@ -370,10 +370,10 @@ theorem retained_good (fac : Factory) (hfac : facOKB fac = true) (hkeys : keysKn
     · simp only [seqClass]
       simp only [Bool.or_eq_false_iff] at c3 ⊢
       exact ⟨⟨c3.1, c3.2⟩, i4⟩
-    · intro hu hp
-      simp only [kfUndersized, kfPieces, List.any_cons, Bool.or_eq_false_iff] at hu hp
+    · intro hp
+      simp only [kfPieces, List.any_cons, Bool.or_eq_false_iff] at hp
       simp only [seqNormal, Bool.and_eq_true, beq_iff_eq]
-      refine ⟨fromGood_normal fac arch m _ hgm hfg _ hdv hu.1 (by simp only [Bool.or_eq_false_iff]; exact hp.1), ?_⟩
-      exact i5 (by simpa [kfUndersized] using hu.2) (by simpa [kfPieces] using hp.2)
+      refine ⟨fromGood_normal fac arch m _ hgm hfg _ hdv (by simp only [Bool.or_eq_false_iff]; exact hp.1), ?_⟩
+      exact i5 (by simpa [kfPieces] using hp.2)
 
 end Fit.E2E
